@@ -224,3 +224,20 @@ def native(binpath, *args, timeout=60):
     if p.returncode != 0 and "panic" not in out:
         out["panic"] = "process exit %d: %s" % (p.returncode, p.stderr[-300:])
     return out
+
+
+def drivers_mir_dump():
+    """MIR of /verif/engines/drivers (the environment programs of the bmc checks)"""
+    src = os.path.join(VERIF, "engines", "drivers")
+    out = os.path.join(WORK, "mir", "verif-drivers.mir")
+    os.makedirs(os.path.dirname(out), exist_ok=True)
+    with Lock("mir-drivers"):
+        lib = os.path.join(src, "src", "lib.rs")
+        os.utime(lib, None)
+        p = run(["cargo", "+nightly", "rustc", "--offline", "-q", "--lib", "--", "-Zunpretty=mir", "-C", "debug-assertions=on",
+                 "-C", "overflow-checks=on"], cwd=src, env={"CARGO_TARGET_DIR": os.path.join(WORK, "drivers-target")}, timeout=1800)
+        if len(p.stdout) < 500:
+            raise Inconclusive("empty MIR dump for the drivers crate: " + p.stderr[-2000:])
+        with open(out, "w") as f:
+            f.write(p.stdout)
+    return out
